@@ -299,6 +299,9 @@ def campaigns(tier):
                  examples=40000 if th else 6000, setup=PS.setup, max_wall=900 if th else 100, shrink_wall=40),
         Campaign("sequence_wrap", "hyp", execute=execute, strategy=lambda: PS.strategy("order", wrap=True),
                  examples=4000 if th else 600, setup=PS.setup, max_wall=300 if th else 40, shrink_wall=30),
+        # the leader of some partitions is down before the first record is sent and returns while sends go on
+        Campaign("outage_window", "hyp", execute=execute, strategy=lambda: PS.strategy("outage"),
+                 examples=12000 if th else 1500, setup=PS.setup, max_wall=400 if th else 60, shrink_wall=30),
         Campaign("txn_chain", "hyp", execute=execute_txn, strategy=_txn_strategy,
                  examples=10000 if th else 1500, setup=_txn_setup, max_wall=400 if th else 60, shrink_wall=30),
     ]
